@@ -5,6 +5,8 @@
  * concrete inputs of a counterexample, runs the real function and evaluates the same postcondition
  * natively (contracts/spec.h).  Exit 1 + "REPRODUCED: ..." if the real code violates the postcondition
  * on that input, exit 0 + "NOT-REPRODUCED" otherwise, exit 3 on usage errors.
+ * With -DREPLAY_API_ONLY only the commands that go through the public API are compiled (used when a change to
+ * the signature of an internal function keeps the full driver from building).
  */
 #define _GNU_SOURCE
 #include <stdio.h>
@@ -102,7 +104,9 @@ int main(int argc, char** argv) {
     if (argc < 2) return 3;
     const char* cmd = argv[1];
     install();
-    if (!strcmp(cmd, "mul2") && argc == 3) {
+    if (0) {
+#ifndef REPLAY_API_ONLY
+    } else if (!strcmp(cmd, "mul2") && argc == 3) {
         unsigned x = num(argv[2]) & 2047;
         CHECK(gf_elem_mul2(x) == spec_mul2(x), "gf_elem_mul2(x) != multiplication by x in GF(2^11)");
     } else if ((!strcmp(cmd, "eval") || !strcmp(cmd, "check") || !strcmp(cmd, "encode_poly")) && argc == 18) {
@@ -157,6 +161,7 @@ int main(int argc, char** argv) {
         reserved_features = num(argv[2]); unsigned m = num(argv[3]);
         int r = polyseed_enable_features(m);
         CHECK(reserved_features == (15u ^ (m & 7u)) && r == (int)spec_popcount3(m), "polyseed_enable_features: mask or return value wrong (most recent call must win)");
+#endif
     } else if (!strcmp(cmd, "keygen") && argc == 5) {
         polyseed_data s; seed_from_hex(argv[2], &s); unsigned coin = num(argv[3]); size_t ks = num(argv[4]); if (ks > 1024) ks = 1024;
         uint8_t* key = malloc(ks ? ks : 1);
@@ -249,6 +254,7 @@ int main(int argc, char** argv) {
         CHECK(!strcmp(out, expect), "encode: phrase differs from words[c0] sep ... words[c15] of the published layout");
         CHECK(n == strlen(out), "encode: returned length is not the length of the output");
         CHECK(!memcmp(&snap, &s, sizeof s), "encode: seed modified");
+#ifndef REPLAY_API_ONLY
     } else if (!strcmp(cmd, "nfkd_lazy") && argc == 3) {
         /* nfkd_lazy <hex of the NUL-terminated input> */
         static char in[2048]; size_t n = unhex(argv[2], (uint8_t*)in, sizeof in - 1); in[n] = 0;
@@ -315,6 +321,7 @@ int main(int argc, char** argv) {
             }
         }
         printf("%ld token lists tried\n", tried);
+#endif
     } else if (!strcmp(cmd, "encode_all") && argc == 2) {
         /* closed obligation T.encode_words[lang] (engine encwords): for every language and every word index w, the real
            polyseed_encode of a seed whose 7th word is w (10 secret bits + one birthday bit chosen accordingly, the other
@@ -390,6 +397,7 @@ int main(int argc, char** argv) {
             printf("\"}\n");
         }
         if (!allok) fails++;
+#ifndef REPLAY_API_ONLY
     } else if (!strcmp(cmd, "cmp") && argc == 5) {
         /* cmp <kind> <keyhex> <elmhex>: kind = str|prefix|str_noaccent|prefix_noaccent */
         char key[64] = {0}, elm[64] = {0}; unhex(argv[3], (uint8_t*)key, 63); unhex(argv[4], (uint8_t*)elm, 63);
@@ -401,6 +409,7 @@ int main(int argc, char** argv) {
         for (const char* p = elm; *p; ++p) if (!(acc && (unsigned char)*p >= 0x80)) b[nb++] = *p;
         int accept = (na == nb && !memcmp(a, b, na)) || (pre && na >= 4 && na < nb && !memcmp(a, b, na));
         if ((r == 0) != accept) { printf("REPRODUCED: comparer returned %d, the acceptance rule says %s\n", r, accept ? "accept" : "reject"); fails++; }
+#endif
     } else if (!strcmp(cmd, "encode_worst") && argc == 5) {
         /* encode_worst <lang index> <word index any> <word index even>: longest-word phrase under ASan */
         int li = num(argv[2]); unsigned wa = num(argv[3]) & 2047, we = num(argv[4]) & 2046;
